@@ -73,7 +73,7 @@ class GearStress(HarnessBase):
 
     def _len(self, gu, env, name, unit_key='len'):
         v = env.real(name, lo=1e-4, hi=10)          # metres
-        u = self.units.get(unit_key, 'm')
+        u = self.units.get(unit_key + '_' + name.split('_')[-1], self.units.get(unit_key, 'm'))
         f = float(si.SI['Length']['m'] / si.SI['Length'][u])
         return v, gu.Length(v * f if u != 'm' else v, u)
 
@@ -91,7 +91,7 @@ class GearStress(HarnessBase):
         if 'elastic_modulus' in data and kind in ('spur', 'helical'):
             e = env.real('E_' + tag, lo=1e6, hi=1e13)
             S['E'] = e
-            u = self.units.get('stress', 'Pa')
+            u = self.units.get('stress_' + tag, self.units.get('stress', 'Pa'))
             f = float(si.SI['Stress']['Pa'] / si.SI['Stress'][u])
             kw['elastic_modulus'] = gu.Stress(e * f if u != 'Pa' else e, u)
         if 'reference_diameter' in data:
@@ -116,7 +116,7 @@ class GearStress(HarnessBase):
         g, S = self._make(env, gu, mo, 'g', self.kind, self.own, self.n)
         shared = None
         if self.kind in ('spur', 'helical') and 'module' in self.own and 'module' in self.mate:
-            shared = (S['m'], g.module)         # mating gears share the module
+            shared = (S['m'], g.module)         # mating gears share the module (same physical value, same object)
         mt, SM = self._make(env, gu, mo, 'mate', mate_kind, self.mate, self.n_mate, shared_module=shared)
         rec = dict(S=S, SM=SM, flags_before=self._flags(g))
         master, slave = (g, mt) if self.role == 'master' else (mt, g)
@@ -280,8 +280,14 @@ def specs(tier, seed):
     for hx in (0.0, 5.0, 45.0, 60.0, 89.9):
         cells.append(('helical', 'master', full, full, 25, 40, hx, 20.0, ()))
     # 3. units
+    # the gear and its mate give module, face width and elastic modulus in units of their own
+    full = ('module', 'face_width', 'elastic_modulus')
+    for kind in ('spur', 'helical'):
+        for role in ('master', 'slave'):
+            cells.append((kind, role, full, full, 21, 33, 20.0, 20.0, (('stress_g', 'GPa'), ('stress_mate', 'MPa'), ('len', 'mm'), ('len_mate', 'cm'))))
     for k in range(4 if tier == 'quick' else 16):
-        u = (('len', rnd.choice(['dm', 'cm', 'mm'])), ('stress', rnd.choice(['kPa', 'MPa', 'GPa'])),
+        u = (('len', rnd.choice(['dm', 'cm', 'mm'])), ('len_mate', rnd.choice(['m', 'dm', 'cm', 'mm'])),
+             ('stress_g', rnd.choice(['kPa', 'MPa', 'GPa'])), ('stress_mate', rnd.choice(['Pa', 'kPa', 'MPa', 'GPa'])),
              ('torque', rnd.choice(list(si.SI['Torque']))))
         cells.append((rnd.choice(['spur', 'helical']), rnd.choice(['master', 'slave']), full, full, 18 + k, 40, 20.0, 20.0, u))
         cells.append(('wheel', rnd.choice(['master', 'slave']), ('module', 'face_width'), ('reference_diameter',), 30, 2,
